@@ -379,6 +379,105 @@ fn nontrivial_key(m: &MSym) -> Option<u64> {
     }
 }
 
+/// Builder histories on `PartialDSet`: random `set` / `grow` calls, a fair share of them with arguments the
+/// builder has to reject (out of range, or in conflict with an entry made earlier). A rejected call panics;
+/// the caller catches that and goes on using the object, which must then be exactly what the accepted calls
+/// made it: every defined operation entry pairs two chambers, nothing else is defined.
+pub fn run_builder_history(ctx: &mut Ctx, size0: usize, dim: usize, calls: &[(u8, usize, usize, usize)]) -> u64 {
+    use rust_dsymbols::dsets::PartialDSet;
+    let input = || json!({"builder": "PartialDSet", "size": size0, "dim": dim, "calls": calls.iter().map(|&(k, i, d, e)| if k == 0 { json!(["set", i, d, e]) } else { json!(["grow", i]) }).collect::<Vec<_>>()});
+    let mut lib = match observe(|| PartialDSet::new(size0, dim)) {
+        Ok(l) => l,
+        Err(_) => return 0,
+    };
+    let mut size = size0;
+    let mut model: Vec<Vec<usize>> = vec![vec![0; size + 1]; dim + 1]; // model[i][d]
+    let mut judged = 0u64;
+    let mut rejected = 0u64;
+    for (step, &(kind, i, d, e)) in calls.iter().enumerate() {
+        if kind == 1 {
+            let count = i;
+            if observe(|| lib.grow(count)).is_err() {
+                ctx.violation("panic-in-grow", "PartialDSet::grow", input(), json!({"step": step}), "no panic");
+                return judged;
+            }
+            size += count;
+            for row in model.iter_mut() {
+                row.resize(size + 1, 0);
+            }
+        } else {
+            let legal = i <= dim && d >= 1 && d <= size && e >= 1 && e <= size && (model[i][d] == 0 || model[i][d] == e) && (model[i][e] == 0 || model[i][e] == d);
+            let r = observe(|| lib.set(i, d, e));
+            match (legal, r.is_ok()) {
+                (true, true) => {
+                    model[i][d] = e;
+                    model[i][e] = d;
+                }
+                (true, false) => {
+                    ctx.violation("builder-rejects-a-consistent-entry", "PartialDSet::set", input(), json!({"step": step, "call": [i, d, e]}), "a consistent entry is accepted");
+                    return judged;
+                }
+                (false, true) => {
+                    ctx.violation("builder-accepts-an-inconsistent-entry", "PartialDSet::set", input(), json!({"step": step, "call": [i, d, e]}), "an entry that is out of range or contradicts an earlier one is rejected");
+                    return judged;
+                }
+                (false, false) => rejected += 1,
+            }
+        }
+        // the whole state after every call
+        judged += 1;
+        if lib.size() != size || lib.dim() != dim {
+            ctx.violation("builder-state-differs-from-the-accepted-calls", "PartialDSet", input(), json!({"step": step, "size": lib.size(), "dim": lib.dim()}), "size and dimension as built");
+            return judged;
+        }
+        for ii in 0..=dim {
+            for dd in 1..=size {
+                let got = lib.op(ii, dd);
+                let want = if model[ii][dd] == 0 { None } else { Some(model[ii][dd]) };
+                if got != want {
+                    ctx.violation(
+                        "builder-state-differs-from-the-accepted-calls",
+                        "PartialDSet::set",
+                        input(),
+                        json!({"step": step, "i": ii, "d": dd, "op": got, "expected": want, "rejected_calls_so_far": rejected}),
+                        "after a rejected call (caught panic) the object is what the accepted calls made it: every defined entry pairs two chambers",
+                    );
+                    return judged;
+                }
+            }
+        }
+    }
+    if rejected > 0 {
+        ctx.count("builder_histories_with_a_rejected_call");
+    }
+    judged
+}
+
+fn builder_histories(cfg: &Cfg) -> Ctx {
+    let seed = cfg.seed;
+    par_range(cfg, cfg.tier.pick(150_000, 3_000_000), |ctx, k| {
+        let mut rng = Rng::stream(seed, 0x02_B000_0000 + k as u64);
+        let size = 1 + rng.below(6);
+        let dim = 1 + rng.below(3);
+        let mut cur = size;
+        let calls: Vec<(u8, usize, usize, usize)> = (0..(6 + rng.below(16)))
+            .map(|_| {
+                if rng.chance(1, 12) {
+                    let c = rng.below(3);
+                    cur += c;
+                    (1u8, c, 0, 0)
+                } else {
+                    (0u8, rng.below(dim + 2), rng.below(cur + 2), rng.below(cur + 2))
+                }
+            })
+            .collect();
+        let j = run_builder_history(ctx, size, dim, &calls);
+        ctx.evals(j);
+        ctx.count("builder_histories");
+        ctx.nontrivial(digest(&("builder", size, dim, &calls)));
+    })
+}
+
 pub fn run(cfg: &Cfg) -> Report {
     let mut report = Report::new(cfg);
     let seed = cfg.seed;
@@ -645,7 +744,9 @@ pub fn run(cfg: &Cfg) -> Report {
     });
     report.absorb(ctx);
 
-    report.rule = format!("(A) every labelled tuple of involutions with commuting far operations (connected or not) for (dim, max size) in {:?}, with all branching assignments from {{1,2,3}} when there are <= 4 two-orbits (random otherwise); each queried as PartialDSet, SimpleDSet, PartialDSym, SimpleDSym, through the as_* conversions and the parser, over the full argument box [0,dim+2]^2 x [0,size+2], all index subsets and seed lists of size <= 3; (B) DSets / DSyms generator outputs; (C) iterated orientation double covers up to several hundred chambers, renumbered; (D) incomplete sets (random holes, or holes in one index only): is_complete / is_loopless / is_connected / op judged, everything else for absence of panics. Non-trivial = valid symbol with >= 2 chambers queried in >= 2 representations; distinct = distinct symbol digests", bounds);
+    report.absorb(builder_histories(cfg));
+    report.require_counter("builder_histories_with_a_rejected_call", 1000);
+    report.rule = format!("(E) PartialDSet builder histories with rejected calls (caught panics) in between, state compared after every call; (A) every labelled tuple of involutions with commuting far operations (connected or not) for (dim, max size) in {:?}, with all branching assignments from {{1,2,3}} when there are <= 4 two-orbits (random otherwise); each queried as PartialDSet, SimpleDSet, PartialDSym, SimpleDSym, through the as_* conversions and the parser, over the full argument box [0,dim+2]^2 x [0,size+2], all index subsets and seed lists of size <= 3; (B) DSets / DSyms generator outputs; (C) iterated orientation double covers up to several hundred chambers, renumbered; (D) incomplete sets (random holes, or holes in one index only): is_complete / is_loopless / is_connected / op judged, everything else for absence of panics. Non-trivial = valid symbol with >= 2 chambers queried in >= 2 representations; distinct = distinct symbol digests", bounds);
     report.explanation = "oracle MSym: orbit length by iterating the product of two operations, reachability by BFS, bipartiteness by 2-colouring; all representations are compared with the same model, hence with each other".into();
     report.note("exhaustive_subuniverses", json!(bounds.iter().map(|(d, n)| format!("all labelled D-sets of dimension {} with <= {} chambers", d, n)).collect::<Vec<_>>()));
     report.assume("verdict domain: complete sets whose far operations commute; on incomplete sets only the predicates whose definitions extend verbatim (complete, loopless, connected, op) are judged, the rest is exercised for absence of panics");
@@ -666,6 +767,20 @@ pub fn run(cfg: &Cfg) -> Report {
 }
 
 pub fn replay(ctx: &mut Ctx, input: &Value) -> bool {
+    if let Some(calls) = input.get("calls").and_then(|x| x.as_array()) {
+        let size = input.get("size").and_then(|x| x.as_u64()).unwrap_or(1) as usize;
+        let dim = input.get("dim").and_then(|x| x.as_u64()).unwrap_or(1) as usize;
+        let calls: Vec<(u8, usize, usize, usize)> = calls
+            .iter()
+            .filter_map(|c| {
+                let a = c.as_array()?;
+                let u = |k: usize| a.get(k).and_then(|x| x.as_u64()).map(|x| x as usize);
+                if a.get(0)?.as_str()? == "set" { Some((0u8, u(1)?, u(2)?, u(3)?)) } else { Some((1u8, u(1)?, 0, 0)) }
+            })
+            .collect();
+        run_builder_history(ctx, size, dim, &calls);
+        return true;
+    }
     if let Some(t) = input.get("symbol").and_then(|x| x.as_str()) {
         if let Some(m) = msym_from_text(t) {
             let mut rng = Rng::new(1);
